@@ -5,6 +5,7 @@ import (
 	"math/rand"
 	"reflect"
 	"sort"
+	"strings"
 
 	"verif/internal/descgen"
 	"verif/internal/ir"
@@ -200,6 +201,25 @@ func editedPaths(a, b *spec.Case) (schema, all []string) {
 		if x.Attr != y.Attr || x.Required != y.Required || x.Computed != y.Computed || x.Sensitive != y.Sensitive ||
 			!reflect.DeepEqual(x.Validators, y.Validators) || !reflect.DeepEqual(x.PlanModifiers, y.PlanModifiers) {
 			schema = append(schema, p)
+		}
+	}
+	// an excluded child of a nullable embedded message changes when the embed is
+	// allocated, which its siblings observe: the whole embed is coupled to it
+	seen := map[string]bool{}
+	for _, p := range all {
+		seen[p] = true
+	}
+	for _, p := range append([]string(nil), all...) {
+		x := pa[p]
+		if !x.InEmbedPtr() {
+			continue
+		}
+		parent := strings.TrimSuffix(p, "."+x.Proto)
+		for q, y := range pa {
+			if !seen[q] && y.InEmbedPtr() && strings.TrimSuffix(q, "."+y.Proto) == parent && len(y.Access) > 0 && len(x.Access) > 0 && y.Access[0].GoName == x.Access[0].GoName {
+				seen[q] = true
+				all = append(all, q)
+			}
 		}
 	}
 	sort.Strings(schema)
